@@ -1,6 +1,9 @@
-(* Witnesses for C16 computed in Q(sqrt 2)(i) by vm_compute (refutations F8, F9). *)
+(* Witnesses for C16 computed in Q(sqrt 2)(i) by vm_compute:
+   - regression theorems about the definitions of the PINNED tree (findings F8, F9, repaired in
+     /repo by daa21e7 and 00f76fe): [*_pinned_refuted_w];
+   - the same inputs through the repaired definitions (non-vacuity of the general theorems). *)
 From Coq Require Import ZArith List Bool Arith Lia Permutation.
-From LW Require Import Base.Sx Base.Num Base.Sums Base.Mat Base.QI2 Model.Tomo Proofs.TomoStateP Proofs.TomoProcP.
+From LW Require Import Base.Sx Base.Num Base.Sums Base.Mat Base.QI2 Model.Tomo Proofs.TomoStateP Proofs.TomoProcP Proofs.TomoProcG.
 Import ListNotations.
 
 (* ------------------------------------------------------------- witnesses (vm_compute) *)
@@ -40,30 +43,30 @@ Proof. vm_compute. reflexivity. Qed.
 Lemma w_nv_eq : n_vec_from_data qi2ops 1 w_nij = Ok w_nv.
 Proof. vm_compute. reflexivity. Qed.
 
-Definition w_G : nat -> nat -> QI2 := gradient qi2ops qi2_i 1 (mle_start qi2ops 1) w_nv.
+Definition w_G : nat -> nat -> QI2 := gradient_pinned qi2ops qi2_i 1 (mle_start qi2ops 1) w_nv.
 
 Lemma w_D_hermitian : hermitian qi2ops 4 w_D.
 Proof. apply meq_of_forallb. vm_compute. reflexivity. Qed.
-Lemma w_grad_wrong : hs_inner qi2ops 4 w_G w_D <> dir_deriv qi2ops qi2_i 1 (mle_start qi2ops 1) w_nv w_D.
+Lemma w_grad_wrong : hs_inner qi2ops 4 w_G w_D <> dir_deriv_pinned qi2ops qi2_i 1 (mle_start qi2ops 1) w_nv w_D.
 Proof. apply neq_of_keqb. vm_compute. reflexivity. Qed.
 Lemma w_grad_conj_right :
-  hs_inner qi2ops 4 (mconj qi2ops w_G) w_D = dir_deriv qi2ops qi2_i 1 (mle_start qi2ops 1) w_nv w_D.
+  hs_inner qi2ops 4 (mconj qi2ops w_G) w_D = dir_deriv_pinned qi2ops qi2_i 1 (mle_start qi2ops 1) w_nv w_D.
 Proof. apply (proj1 (ui_eqb (o:=qi2ops) _ _)). vm_compute. reflexivity. Qed.
 
-(* F8: on the noiseless data of the S gate, at the starting point of pgdb, the matrix that
-   [_gradient] returns is NOT the gradient of the cost (its Hilbert-Schmidt inner product with
+(* F8 (pinned tree): on the noiseless data of the S gate, at the starting point of pgdb, the matrix that
+   the old [_gradient] returned is NOT the gradient of the cost (its Hilbert-Schmidt inner product with
    the Hermitian direction X (x) Y differs from the directional derivative); its complex
    conjugate is. *)
-Theorem mle_gradient_refuted_w :
+Theorem mle_gradient_pinned_refuted_w :
   exists nij nv,
     mle_nij qi2ops 1 (req_canonical 1 false)
             (process_ideal qi2ops qi2_i qi2_h 1 w_S (istrings mle_inputs 1) (req_canonical 1 false)) = Ok nij /\
     n_vec_from_data qi2ops 1 nij = Ok nv /\
     hermitian qi2ops 4 w_D /\
-    hs_inner qi2ops 4 (gradient qi2ops qi2_i 1 (mle_start qi2ops 1) nv) w_D
-      <> dir_deriv qi2ops qi2_i 1 (mle_start qi2ops 1) nv w_D /\
-    hs_inner qi2ops 4 (mconj qi2ops (gradient qi2ops qi2_i 1 (mle_start qi2ops 1) nv)) w_D
-      = dir_deriv qi2ops qi2_i 1 (mle_start qi2ops 1) nv w_D.
+    hs_inner qi2ops 4 (gradient_pinned qi2ops qi2_i 1 (mle_start qi2ops 1) nv) w_D
+      <> dir_deriv_pinned qi2ops qi2_i 1 (mle_start qi2ops 1) nv w_D /\
+    hs_inner qi2ops 4 (mconj qi2ops (gradient_pinned qi2ops qi2_i 1 (mle_start qi2ops 1) nv)) w_D
+      = dir_deriv_pinned qi2ops qi2_i 1 (mle_start qi2ops 1) nv w_D.
 Proof.
   exists w_nij, w_nv. split; [exact w_nij_eq|]. split; [exact w_nv_eq|]. split; [exact w_D_hermitian|].
   split; [exact w_grad_wrong|exact w_grad_conj_right].
@@ -78,15 +81,71 @@ Definition w_Ry : nat -> nat -> QI2 :=
 Lemma w_Ry_unitary : unitary qi2ops 2 w_Ry.
 Proof. split; apply meq_of_forallb; vm_compute; reflexivity. Qed.
 
-Theorem li_eq_reference_refuted_w :
+Theorem li_eq_reference_pinned_refuted_w :
   forall solve req, pinv_contract (o:=qi2ops) solve -> Permutation req (req_canonical 1 false) ->
-  exists J, li_process qi2ops qi2_i solve 1 req (process_ideal qi2ops qi2_i qi2_h 1 w_Ry (istrings li_inputs 1) req) = Ok J /\
+  exists J, li_process_pinned qi2ops qi2_i solve 1 req (process_ideal qi2ops qi2_i qi2_h 1 w_Ry (istrings li_inputs 1) req) = Ok J /\
             ~ meq 4 J (choi_from_unitary qi2ops 2 w_Ry).
 Proof.
   intros solve req Hs Hp.
-  destruct (li_returns_choi_of_transpose (TR:=qi2_tomo) solve w_Ry req Hs (proj1 w_Ry_unitary) Hp) as [J [E M]].
+  destruct (li_pinned_returns_choi_of_transpose (TR:=qi2_tomo) solve w_Ry req Hs (proj1 w_Ry_unitary) Hp) as [J [E M]].
   exists J. split; [exact E|]. intros M'.
   assert (H : choi_T (o:=qi2ops) w_Ry 0 1 = choi_from_unitary qi2ops 2 w_Ry 0 1).
   { rewrite <- (M 0 1) by lia. apply M'; lia. }
   revert H. apply neq_of_keqb. vm_compute. reflexivity.
+Qed.
+
+(* ---- the same witnesses through the REPAIRED definitions ---- *)
+Lemma w_grad_repaired :
+  hs_inner qi2ops 4 (gradient qi2ops qi2_i 1 (mle_start qi2ops 1) w_nv) w_D
+  = dir_deriv qi2ops qi2_i 1 (mle_start qi2ops 1) w_nv w_D.
+Proof. apply (proj1 (ui_eqb (o:=qi2ops) _ _)). vm_compute. reflexivity. Qed.
+
+(* a concrete realisation of pinv for the one-qubit LI system: the left inverse L1 *)
+Definition w_solve (N : nat) (T : nat -> nat -> QI2) (b : nat -> QI2) : nat -> QI2 :=
+  fun x => sumn qi2ops 16 (fun r => kmul qi2ops (L1 (o:=qi2ops) (ii:=qi2_i) (hh:=qi2_h) x r) (b r)).
+
+Lemma w_li_Ry_computed :
+  match li_process qi2ops qi2_i w_solve 1 (rev (req_canonical 1 false))
+          (process_ideal qi2ops qi2_i qi2_h 1 w_Ry (istrings li_inputs 1) (rev (req_canonical 1 false))) with
+  | Ok J => forallb (fun i => forallb (fun j => keqb qi2ops (J i j) (choi_from_unitary qi2ops 2 w_Ry i j)) (seq 0 4)) (seq 0 4)
+  | Err _ => false
+  end = true.
+Proof. vm_compute. reflexivity. Qed.
+
+Lemma w_Ry_not_symmetric : w_Ry 0 1 <> w_Ry 1 0.
+Proof. apply neq_of_keqb. vm_compute. reflexivity. Qed.
+
+Lemma w_third : kmul qi2ops (kadd qi2ops (kadd qi2ops (k1 qi2ops) (k1 qi2ops)) (k1 qi2ops)) (qi2_of (qz 1 3) (qz 0 1) (qz 0 1) (qz 0 1))
+                = k1 qi2ops.
+Proof. apply (proj1 (ui_eqb (o:=qi2ops) _ _)). vm_compute. reflexivity. Qed.
+
+(* ---- the pinned LI agreed with the reference exactly for symmetric V ---- *)
+Section PinnedPartial.
+  Context {K : Type} {o : ops K} {ii hh : K} {TR : TomoRing o ii hh}.
+  Theorem li_pinned_symmetric solve (V : nat -> nat -> K) req :
+    pinv_contract (o:=o) solve -> lunit o 2 V -> Permutation req (req_canonical 1 false) ->
+    meq 2 (mtrans V) V ->
+    exists J, li_process_pinned o ii solve 1 req (process_ideal o ii hh 1 V (istrings li_inputs 1) req) = Ok J /\
+              meq 4 J (choi_from_unitary o 2 V).
+  Proof.
+    intros Hs HV Hp Hsym.
+    destruct (li_pinned_returns_choi_of_transpose (TR:=TR) solve V req Hs HV Hp) as [J [E M]].
+    exists J. split; [exact E|]. eapply meq_trans; [exact M|]. apply choi_T_symmetric. exact Hsym.
+  Qed.
+End PinnedPartial.
+
+Theorem mle_gradient_pinned_refuted_V :
+  exists (V D : nat -> nat -> QI2) nij nv,
+    unitary qi2ops 2 V /\
+    mle_nij qi2ops 1 (req_canonical 1 false)
+            (process_ideal qi2ops qi2_i qi2_h 1 V (istrings mle_inputs 1) (req_canonical 1 false)) = Ok nij /\
+    n_vec_from_data qi2ops 1 nij = Ok nv /\
+    hermitian qi2ops 4 D /\
+    hs_inner qi2ops 4 (gradient_pinned qi2ops qi2_i 1 (mle_start qi2ops 1) nv) D
+      <> dir_deriv_pinned qi2ops qi2_i 1 (mle_start qi2ops 1) nv D /\
+    hs_inner qi2ops 4 (mconj qi2ops (gradient_pinned qi2ops qi2_i 1 (mle_start qi2ops 1) nv)) D
+      = dir_deriv_pinned qi2ops qi2_i 1 (mle_start qi2ops 1) nv D.
+Proof.
+  exists w_S, w_D, w_nij, w_nv. split; [exact w_S_unitary|]. split; [exact w_nij_eq|]. split; [exact w_nv_eq|].
+  split; [exact w_D_hermitian|]. split; [exact w_grad_wrong|exact w_grad_conj_right].
 Qed.
